@@ -12,6 +12,7 @@
 -/
 import Heathcliff.Proofs.C17
 import Heathcliff.Gen.Sync
+import Heathcliff.Proofs.GenConc
 namespace HC.C17
 open HC.Conc
 
@@ -250,5 +251,171 @@ def modelledLockSites : List (String × String × String) :=
    ("src/util/galois.rs", "apply_ntt", "permutation_tables.read")]
 
 theorem lock_sites_modelled : HC.Gen.lockSites = modelledLockSites := by decide
+
+/-! ## The PHASE STRUCTURE of the code is the model's (translator phase 4m, Gen/ConcFns.lean regenerated from the sources on every run)
+
+`GenConc.*` are the functions the translator produces from `Decryptor::compute_secret_key_array`, `dot_product_ct_sk_array`
+(src/encryptor.rs), `KeyGenerator::compute_secret_key_array`, `generate_rlk` (src/key.rs) and `GaloisTool::apply_ntt` (src/util/galois.rs):
+the program of ONE thread - the flat list of action codes (`ConcProg.Act`) - as a function of the values the thread observes in each lock
+region.  The theorems below say that for ALL observations these programs are the ones the step functions `stepThr` / `gstepThr` of
+Model/Conc.lean perform, so the theorems above (arbitrary schedules, arbitrary thread counts) are about the phase structure the code has:
+what is read under the read lock, the early return, what is computed holding no lock, the re-check under the write lock, ONE read region
+in the use phase whose indices do not depend on an earlier region.
+Trusted (tools/rs2lean_conc.py): the reading of `RwLock::read()/write()` guards, `drop`, scope end and `return` as region boundaries; the
+data readings of the elided statements (copy, compute loop, publish, slices). -/
+
+section GenConc
+open HC.ConcProg
+
+/-- `stepActs` (the actions of a model step) is a faithful reading of `stepThr`: EXECUTING the actions (copy = prefix of the shared
+    vector, MUL a b c = the polynomial at word offset `c` := that at `a` times that at `b`, store = publish the local array) on the cache
+    the thread sees and its local array yields the cache and the local array `stepThr` yields, and fails exactly when `stepThr` panics -
+    in particular the MULs the code's index arithmetic produces ARE the model's `extend`.  `hC`: in the compute phase the local array is
+    what was copied in the read phase. -/
+theorem gen_step_actions_sound (d : Nat) (hd : 0 < d) (rc : Bool) (cache : List P) (t : Thr P)
+    (hpc : t.pc = .R ∨ t.pc = .C ∨ t.pc = .W) (hC : t.pc = .C → t.newArr.length = t.oldR) :
+    execActs A d (stepActs d rc A cache t) (cache, t.newArr) =
+      if (stepThr rc A cache t).2.pc = .panicked then none
+      else some ((stepThr rc A cache t).1, (stepThr rc A cache t).2.newArr) :=
+  gq_stepActs_sound A d hd rc cache t hpc hC
+
+/-- ... at the level of the whole system: a step of thread `i` of ANY state (its R, C or W phase, not panicking) changes the shared cache
+    exactly as the execution of that step's actions does -/
+theorem gen_global_step_is_exec (d : Nat) (hd : 0 < d) (σ : St P) (i : Nat) (t : Thr P) (ht : σ.thr[i]? = some t)
+    (hpc : t.pc = .R ∨ t.pc = .C ∨ t.pc = .W) (hC : t.pc = .C → t.newArr.length = t.oldR)
+    (hnp : (stepThr true A σ.cache t).2.pc ≠ .panicked) :
+    ∃ arr, execActs A d (stepActs d true A σ.cache t) (σ.cache, t.newArr) = some ((step true A i σ).cache, arr) ∧
+      (step true A i σ).thr[i]? = some (stepThr true A σ.cache t).2 ∧ arr = (stepThr true A σ.cache t).2.newArr := by
+  refine ⟨(stepThr true A σ.cache t).2.newArr, ?_, ?_, rfl⟩
+  · rw [gq_stepActs_sound A d hd true σ.cache t hpc hC, if_neg hnp]
+    simp [step, ht]
+  · exact step_getElem?_self A true i σ t ht
+
+/-- `Decryptor::compute_secret_key_array` IS the model's R, C, W steps (with the re-check): for every requested power, every `n`, `k`
+    (degree, key primes), every cache `cR` seen under the read lock and every cache `cW` seen under the write lock (whatever the other
+    threads did in between).  Hypotheses: `n·k > 0`; the new array fits a `usize` (else `vec![0; …]`'s size computation panics);
+    `cR` non-empty (the constructor stores `s^1`, `cache_inv` keeps `n ≥ 1`); the EMPTY cache is `gen_compute_empty_cache_panics`. -/
+theorem gen_dec_compute_secret_key_array_eq (want n k : Nat) (cR cW : List P) (hd : 0 < n * k) (hnk : n * k < B64)
+    (hA : max cR.length want * n * k < B64) (h1 : 1 ≤ cR.length) :
+    GenConc.dec_compute_secret_key_array want n k (cR.length * (n * k)) (cW.length * (n * k)) =
+      .ok (encode (callActs (n * k) true A want cR cW)) :=
+  gq_dec_compute_eq A want n k cR cW hd hnk hA h1
+
+/-- the excluded point of the two equalities: on an EMPTY cache (request > 0) the generated program traps in `old_size + i - 1` of the
+    first loop iteration, and the model panics in its compute step (`extendOnce []`): they agree there too -/
+theorem gen_compute_empty_cache_panics (want n k M : Nat) (hw : 0 < want) (hd : 0 < n * k) (hnk : n * k < B64) (hA : want * n * k < B64) :
+    GenConc.dec_compute_secret_key_array want n k 0 (M * (n * k)) = .error .overflow ∧
+    (stepThr true A [] (stepThr true A [] ({ want := want } : Thr P)).2).2.pc = .panicked :=
+  ⟨gq_dec_compute_empty want n k M hw hd hnk hA, gq_model_empty_panics A want hw⟩
+
+/-- the same for `KeyGenerator::compute_secret_key_array` (proved separately: a change to ONE of the two copies breaks that one) -/
+theorem gen_kg_compute_secret_key_array_eq (want n k : Nat) (cR cW : List P) (hd : 0 < n * k) (hnk : n * k < B64)
+    (hA : max cR.length want * n * k < B64) (h1 : 1 ≤ cR.length) :
+    GenConc.kg_compute_secret_key_array want n k (cR.length * (n * k)) (cW.length * (n * k)) =
+      .ok (encode (callActs (n * k) true A want cR cW)) :=
+  gq_kg_compute_eq A want n k cR cW hd hnk hA h1
+
+/-- ... in every run: for the caches of ANY two states along ANY schedule (the thread reads in the first, writes in the second) the
+    generated program is the model's call and respects the lock discipline (no lock is requested while one is held) -/
+theorem gen_compute_in_run (n0 : Nat) (h0 : 1 ≤ n0) (wants sched sched' : List Nat) (want n k : Nat) (hd : 0 < n * k)
+    (hnk : n * k < B64) (hA : max (run true A sched (init A n0 wants)).cache.length want * n * k < B64) :
+    let cR := (run true A sched (init A n0 wants)).cache
+    let cW := (run true A (sched ++ sched') (init A n0 wants)).cache
+    GenConc.dec_compute_secret_key_array want n k (cR.length * (n * k)) (cW.length * (n * k)) =
+        .ok (encode (callActs (n * k) true A want cR cW)) ∧
+      LockWF (callActs (n * k) true A want cR cW) := by
+  intro cR cW
+  have h1 : 1 ≤ cR.length := (cache_inv A n0 h0 wants sched).2.2.1
+  exact ⟨gq_dec_compute_eq A want n k cR cW hd hnk hA h1, gq_callActs_lockWF _ A want cR cW h1⟩
+
+/-- the model's call in closed form: early return iff enough powers are cached; otherwise allocate, copy ALL cached powers, release,
+    one MUL per missing power (`muls`: entry `L+i` := entry `L+i−1` · entry 0, holding NO lock), take the write lock, and publish UNLESS the
+    cache seen there already has `want` powers -/
+theorem gen_call_closed_form (d want : Nat) (cR cW : List P) (h1 : 1 ≤ cR.length) :
+    callActs d true A want cR cW =
+      if cR.length = max cR.length want then [.acqR, .relR]
+      else [.acqR, .alloc (max cR.length want * d), .copy (cR.length * d), .relR] ++
+        muls d cR.length (max cR.length want - cR.length) ++ [.acqW] ++
+        (if cW.length = max cW.length want then [.relW] else [.store (max cR.length want * d), .relW]) :=
+  gq_callActs d A want cR cW h1
+
+/-- use phase of `Decryptor::dot_product_ct_sk_array` (ciphertext of `size ≥ 2`, level with `k ≤ kkey` primes) on a snapshot of `L`
+    powers with `size − 1 ≤ L`: nested call, ONE read region, power `i` read at `i·(n·kkey)` - a stride that is a constant of the
+    context - over `n·k` words.  Entry `i` of the model's `cache.take want` is the polynomial at that offset. -/
+theorem gen_dot_product_use_eq (size n k kkey : Nat) (ntt : Bool) (L : Nat) (h2 : 2 ≤ size) (hk : k ≤ kkey)
+    (hB : size * (n * kkey) < B64) (hsee : size - 1 ≤ L) :
+    GenConc.dec_dot_product_ct_sk_array size n k kkey ntt (L * (n * kkey)) =
+      .ok (encode ([.call (size - 1), .acqR] ++
+        (if size = 2 then [.readFirst] else (List.range (size - 1)).map fun i => .read (i * (n * kkey)) (i * (n * kkey) + n * k)) ++
+        [.relR])) :=
+  gq_dot_product_eq size n k kkey ntt L h2 hk hB hsee
+
+/-- ... and it is refused (a slice leaves the snapshot) when fewer than `size − 1` powers are there: the model's use phase panicking -/
+theorem gen_dot_product_use_refuses (size n k kkey : Nat) (ntt : Bool) (L : Nat) (h3 : 3 ≤ size) (hk : k ≤ kkey) (hd : 0 < n * k)
+    (hB : size * (n * kkey) < B64) (hsee : L < size - 1) :
+    GenConc.dec_dot_product_ct_sk_array size n k kkey ntt (L * (n * kkey)) = .error .refused :=
+  gq_dot_product_refuses size n k kkey ntt L h3 hk hd hB hsee
+
+/-- composition with `use_sees_enough`: along ANY schedule, a thread that stands before its use phase executes the generated use phase
+    on the cache AS IT IS THEN without refusal, inside one read region, reading exactly the powers `0 … want − 1` -/
+theorem gen_use_phase_in_run (n0 : Nat) (h0 : 1 ≤ n0) (wants sched : List Nat) (i : Nat) (t : Thr P)
+    (ht : (run true A sched (init A n0 wants)).thr[i]? = some t) (hpc : t.pc = .U)
+    (size n k kkey : Nat) (ntt : Bool) (h2 : 2 ≤ size) (hw : t.want = size - 1) (hk : k ≤ kkey) (hB : size * (n * kkey) < B64) :
+    GenConc.dec_dot_product_ct_sk_array size n k kkey ntt ((run true A sched (init A n0 wants)).cache.length * (n * kkey)) =
+      .ok (encode ([.call (size - 1), .acqR] ++
+        (if size = 2 then [.readFirst] else (List.range (size - 1)).map fun i => .read (i * (n * kkey)) (i * (n * kkey) + n * k)) ++
+        [.relR])) ∧
+    LockWF ([.call (size - 1), .acqR] ++
+        (if size = 2 then [.readFirst] else (List.range (size - 1)).map fun i => .read (i * (n * kkey)) (i * (n * kkey) + n * k)) ++
+        [.relR]) := by
+  have h := (use_sees_enough A n0 h0 wants sched i t ht hpc).1
+  exact ⟨gq_dot_product_eq size n k kkey ntt _ h2 hk hB (by omega), gq_use_lockWF size _ _⟩
+
+/-- use phase of `KeyGenerator::generate_rlk` (`count ∈ [1, 14]`, else refused before): nested call for `count + 1` powers, ONE read
+    region, `count` polynomials from word offset `n·k`; the slice is inside a cache of `L` powers iff `count + 1 ≤ L` -/
+theorem gen_generate_rlk_use_eq (count n k lenU : Nat) (hc : 1 ≤ count) (hc2 : count ≤ 14) (hnk : n * k < B64) :
+    GenConc.kg_generate_rlk count true n k lenU =
+      (if n * k ≤ lenU then .ok (encode [.call (count + 1), .acqR, .keys (n * k) count, .relR]) else .error .refused) ∧
+    LockWF [.call (count + 1), .acqR, .keys (n * k) count, .relR] ∧
+    ∀ L, 0 < n * k → (n * k + count * (n * k) ≤ L * (n * k) ↔ count + 1 ≤ L) :=
+  ⟨gq_generate_rlk_eq count n k lenU hc hc2 hnk, gq_rlk_lockWF count (n * k), fun L hd => gq_keys_in_range (n * k) count L hd⟩
+
+/-- `GaloisTool::apply_ntt` IS the model's check / generate-store / use steps: for every table index and every two table vectors the
+    thread observes (check region, use region), the generated program is the model's call; it is refused (index out of range) exactly
+    when the model panics; and it respects the lock discipline: the check region is left before the write lock is requested.
+    `hpos`: a generated table is not empty (`coeff_count ≥ 2` entries), so `is_empty()` means "not generated". -/
+theorem gen_apply_ntt_eq (len : T → Nat) (hpos : ∀ x, 0 < len x) (ix cc : Nat) (tK tU : List (Option T)) :
+    GenConc.galois_apply_ntt ix cc cc (lens len tK) (lens len tU) =
+      (match gCallActs len gen ix tK tU with
+       | none => .error .oob
+       | some a => .ok (encode a)) ∧
+    ∀ a, gCallActs len gen ix tK tU = some a → LockWF a :=
+  ⟨gq_apply_ntt_eq len hpos gen ix cc tK tU, fun a h => gq_gCallActs_lockWF len gen ix tK tU a h⟩
+
+/-- witnesses (non-vacuity; N = 4, 2 primes, 8 words per power).  The racy situation of `norecheck_shrinks`: a thread that wants 2
+    powers read a 1-power cache, another thread published 3 powers before it takes the write lock: the generated program KEEPS the cache
+    (no STORE = code 13) ... -/
+example : GenConc.dec_compute_secret_key_array 2 4 2 (1 * 8) (3 * 8) = .ok [1, 10, 16, 11, 8, 2, 12, 0, 8, 0, 8, 8, 8, 3, 4] := rfl
+/-- ... as the model with the re-check does, while the model WITHOUT the re-check publishes (the cache shrinks) -/
+example : encode (callActs 8 true natAlg 2 [2] [2, 4, 8]) = [1, 10, 16, 11, 8, 2, 12, 0, 8, 0, 8, 8, 8, 3, 4] ∧
+    encode (callActs 8 false natAlg 2 [2] [2, 4, 8]) = [1, 10, 16, 11, 8, 2, 12, 0, 8, 0, 8, 8, 8, 3, 13, 16, 4] := by decide
+/-- nothing changed in between: two MULs (s^2 = s^1·s^1 at word 8, s^3 = s^2·s^1 at word 16), the thread publishes; enough powers cached: early
+    return; an empty cache: trap -/
+example : GenConc.kg_compute_secret_key_array 3 4 2 (1 * 8) (1 * 8) =
+      .ok [1, 10, 24, 11, 8, 2, 12, 0, 8, 0, 8, 8, 8, 12, 8, 8, 0, 8, 16, 8, 3, 13, 24, 4] ∧
+    GenConc.kg_compute_secret_key_array 2 4 2 (3 * 8) (3 * 8) = .ok [1, 2] ∧
+    GenConc.kg_compute_secret_key_array 2 4 2 0 0 = .error .overflow := ⟨rfl, rfl, rfl⟩
+/-- a size-4 ciphertext at a level with 1 of the 2 key primes: powers 0, 1, 2 at stride 8, 4 words each; a 2-power snapshot is refused -/
+example : GenConc.dec_dot_product_ct_sk_array 4 4 1 2 true (3 * 8) = .ok [14, 3, 1, 15, 0, 4, 15, 8, 12, 15, 16, 20, 2] ∧
+    GenConc.dec_dot_product_ct_sk_array 4 4 1 2 true (2 * 8) = .error .refused ∧
+    GenConc.dec_dot_product_ct_sk_array 2 4 1 2 true (1 * 8) = .ok [14, 1, 1, 16, 2] := ⟨rfl, rfl, rfl⟩
+example : GenConc.kg_generate_rlk 2 true 4 2 (3 * 8) = .ok [14, 3, 1, 17, 8, 2, 2] := rfl
+/-- table 1 absent at the check, present (4 entries) at the use: check region, write region (generate + store), use region; present at
+    the check: no write region; index out of range: refused -/
+example : GenConc.galois_apply_ntt 1 4 4 [0, 0] [0, 4] = .ok [1, 2, 3, 20, 1, 4, 1, 21, 1, 4, 2] ∧
+    GenConc.galois_apply_ntt 1 4 4 [0, 4] [0, 4] = .ok [1, 2, 1, 21, 1, 4, 2] ∧
+    GenConc.galois_apply_ntt 2 4 4 [0, 4] [0, 4] = .error .oob := ⟨rfl, rfl, rfl⟩
+
+end GenConc
 
 end HC.C17
